@@ -289,13 +289,22 @@ def inj_deep_chain(spec, r):
     return spec
 
 
-def inj_ctc_chain(ops=("AND", "OR"), n=(7, 20)):
+def inj_ctc_chain(ops=("AND", "OR"), n=(7, 20), distinct=False):
     """One constraint that is a chain of 7-20 operands of one associative operator, nested in a random shape
-    (left, right or balanced), possibly below another operator."""
+    (left, right or balanced), possibly below another operator.  distinct: every operand is a feature of its own
+    (fresh optional leaves under the root) and the length is drawn around block boundaries (16, 32, 48, 64...) -
+    an operand lost from a chain over repeated names would lose no name."""
     def f(spec, r):
         names = S.feature_names(spec)
         k = r.randint(*n)
-        xs = [r.choice(names) if r.random() < 0.2 else names[j % len(names)] for j in range(k)]
+        if distinct:
+            k = r.choice([x for x in (15, 16, 17, 18, 31, 32, 33, 34, 47, 48, 49, 50, 63, 64, 65, 66, 70) if n[0] <= x <= n[1]] or [k])
+            fresh = [f"Op{j}q{len(spec['ctcs'])}" for j in range(k)]
+            for nm in fresh:
+                spec["root"].setdefault("rels", []).append({"min": 0, "max": 1, "children": [{"name": nm, "rels": []}]})
+            xs = list(fresh)
+        else:
+            xs = [r.choice(names) if r.random() < 0.2 else names[j % len(names)] for j in range(k)]
         r.shuffle(xs)
         op = r.choice(ops)
 
